@@ -15,7 +15,7 @@
 
 char* gp_line; int g_len; int g_k; char v_g; int g_q;
 const unsigned char* gp_mb; const unsigned char* gp_mi; const unsigned char* gp_mr;
-char* gp_type; char* gp_name; char* gp_val;
+int* gp_off; int g_ptoff, g_pnoff, g_pvoff;
 int g_ncalls, g_nsets, g_set_kind, g_set_param, g_set_bval, g_set_ival, g_set_init, g_set_ret;
 int g_spec_bval, g_type_tag, g_name_seed_ok, g_toff, g_noff, g_voff;
 double g_set_rval; unsigned int g_set_uval;
@@ -39,6 +39,7 @@ static void havoc_ghosts(void)
    g_srclen = nondet_int();
    g_slack = SLACK; g_nbool = N_BOOLPARAM; g_nint = N_INTPARAM; g_nreal = N_REALPARAM;
    /* recording ghosts start from a known state */
+   g_ptoff = 0; g_pnoff = 0; g_pvoff = 0;
    g_ncalls = 0; g_nsets = 0; g_set_kind = -1; g_set_param = -1; g_set_bval = -1; g_set_ival = 0; g_set_init = -1; g_set_ret = -1;
    g_spec_bval = -2; g_type_tag = -2; g_name_seed_ok = 0; g_toff = -1; g_noff = -1; g_voff = -1; g_set_rval = 0.0; g_set_uval = 0;
 }
@@ -46,7 +47,7 @@ static void havoc_ghosts(void)
 #define IS_WS(c)    ((c) == ' ' || (c) == '\t' || (c) == '\r')
 #define IS_DELIM(c) (IS_WS(c) || (c) == '\n' || (c) == '#' || (c) == '\0' || (c) == ':' || (c) == '=')
 #define TABLES_FRESH (__CPROVER_is_fresh(mb, NTAB) && __CPROVER_is_fresh(mi, NTAB) && __CPROVER_is_fresh(mr, NTAB))
-#define GHOST_WRITES gp_line, gp_mb, gp_mi, gp_mr, gp_type, gp_name, gp_val, g_ncalls, g_nsets, g_set_kind, g_set_param, \
+#define GHOST_WRITES gp_line, gp_mb, gp_mi, gp_mr, gp_off, g_ptoff, g_pnoff, g_pvoff, g_ncalls, g_nsets, g_set_kind, g_set_param, \
    g_set_bval, g_set_ival, g_set_init, g_set_ret, g_spec_bval, g_type_tag, g_name_seed_ok, g_toff, g_noff, g_voff, \
    g_set_rval, g_set_uval
 
